@@ -239,6 +239,30 @@ func fineKnob(seed uint64, pct1, pct2 int) int {
 	return 0
 }
 
+// deepen scales a length knob in the thorough tier: a third of the thorough
+// runs are two to three times as long as the quick tier's (decided from the
+// run's own PRNG stream so that the rest of the plan is unaffected).
+func deepen(tier string, seed uint64, n int) int {
+	if tier != "thorough" {
+		return n
+	}
+	switch newRNG(seed, 0xdee9).IntN(6) {
+	case 0:
+		return 2*n + 2
+	case 1:
+		return 3*n + 1
+	}
+	return n
+}
+
+// fineTier is fineKnob with the thorough tier's larger share of fine-grained runs.
+func fineTier(tier string, seed uint64, pct1, pct2 int) int {
+	if tier == "thorough" {
+		return fineKnob(seed, 2*pct1, 3*pct2)
+	}
+	return fineKnob(seed, pct1, pct2)
+}
+
 func newRNG(seed uint64, stream uint64) *rand.Rand {
 	return rand.New(rand.NewPCG(seed, stream))
 }
